@@ -138,8 +138,9 @@ def _strategies():
     script_compat = st.lists(st.one_of(*[compat] * 12, *[dead] * 6, ident), min_size=1, max_size=4)
     script_mixed = st.lists(st.one_of(incompat, incompat, compat, dead), min_size=1, max_size=4)
     script = st.one_of(script_compat, script_mixed, script_mixed)
-    # the script is drawn before the package (Hypothesis fills the tail of an example with minimal choices quite often)
-    diff_case = st.fixed_dictionaries({"kind": st.just("diff"), "script": script, "pkg": pkg})
+    # the script is drawn before the package (Hypothesis fills the tail of an example with minimal choices quite often);
+    # one CLI history for every ~40 in-process histories (a CLI run costs ~10 git sub-processes); the CLI options are
+    # always drawn and ignored by "diff" cases (one_of() would not honour a 39:1 weighting of identical branches)
     cli_opts = st.fixed_dictionaries(
         {
             "layout": st.sampled_from(["flat", "src"]),
@@ -149,16 +150,11 @@ def _strategies():
             "verbose": st.booleans(),
         }
     )
-    cli_case = st.fixed_dictionaries({"kind": st.just("cli"), "cli": cli_opts, "script": script, "pkg": pkg})
-    return diff_case, cli_case
+    return st.fixed_dictionaries({"kind": st.sampled_from(["diff"] * 39 + ["cli"]), "cli": cli_opts, "script": script, "pkg": pkg})
 
 
 def strategy(ctx):
-    from hypothesis import strategies as st
-
-    diff_case, cli_case = _strategies()
-    # one CLI history for every ~40 in-process histories (a CLI run costs ~10 git sub-processes)
-    return st.one_of(*([diff_case] * 39), cli_case)
+    return _strategies()
 
 
 # ----------------------------------------------------------------------------- Griffe side
@@ -520,5 +516,5 @@ KNOWN: dict = {}
 def run_shard(ctx) -> None:
     global _TMP_BASE
     _TMP_BASE = str(ctx.tmp)
-    n = ctx.scale(260, 4200)
+    n = ctx.scale(500, 4200)
     ctx.run_hypothesis(strategy(ctx), check_case, n, describe=describe, salt="")
